@@ -584,6 +584,8 @@ func (p *Parser) parseSelectStatement() (ast.Statement, error) {
 				return nil, err
 			}
 			tables = append(tables, additionalRef)
+			// JOIN binds tighter than the comma: FROM a, b JOIN c joins c to b
+			tableRef = additionalRef
 		}
 
 		// Parse JOIN clauses if present
